@@ -150,6 +150,10 @@ def cases(ctx):
                 yield {"k": "script", "hex": (pre + tail).hex(), "tag": "unclosed_behind_prefix"}
                 yield {"k": "tx_embed", "hex": (pre + tail).hex(), "tag": "unclosed_behind_prefix"}
                 yield {"k": "txin_embed", "hex": (pre + tail).hex(), "tag": "unclosed_behind_prefix"}
+    # a long series of REJECTED scripts (never-closed towers, over-declared pushes) on the driver's one worker thread, then well-formed
+    # scripts: what was refused earlier must not change what is accepted later
+    if S == 1 or (thorough and S == N // 2):
+        yield {"k": "after_rejections", "n": 2500 if S == 1 else 12000, "depth": 1000}
     # every script of up to five bytes over {IF, 0x65, 0x66, ELSE, ENDIF, OP_1}: each opener at every position (top level, first
     # branch, else branch, nested), closed and never closed
     si = 0
@@ -313,6 +317,33 @@ wire.detok_lenient = detok_lenient
 
 def judge(ctx, case):
     k = case["k"]
+    if k == "after_rejections":
+        ctx.hit("after_rejections")
+        ctx.nontrivial()
+        rejected = 0
+        for i in range(case["n"]):
+            bad = [b"\x63" * case["depth"], (b"\x51\x63" * case["depth"]) + b"\x68" * (case["depth"] // 2), b"\x63\x67" * case["depth"], b"\x51" * 50 + b"\x4c\xff\x01", b"\x64" * case["depth"] + b"\x51"][i % 5]
+            r = ctx.call({"op": "script_decode", "hex": bad.hex()})
+            ctx.ev()
+            if "err" in r:
+                rejected += 1
+            elif "ok" in r:
+                ctx.viol("unclosed_conditional accepted (via=script)" if i % 5 != 3 else "truncated_pushdata accepted symptom=other (via=script)", {"input": bad.hex()[:100]})
+        if rejected >= case["n"] * 0.9:
+            ctx.hit("after_rejections_reached")
+        for good in (b"\x51\x63\x52\x67\x53\x68", b"\x63\x68", b"\x63" * 200 + b"\x68" * 200, b"\x4c\x03abc", b"\x51\x64\x67\x63\x68\x68", b"\x76\xa9\x14" + bytes(20) + b"\x88\xac"):
+            for via_k in ("script", "tx_embed"):
+                if via_k == "script":
+                    r = ctx.call({"op": "script_decode", "hex": good.hex()})
+                    got = r["ok"]["bytes"] if "ok" in r else None
+                else:
+                    tb = wire.tx_encode({"version": 1, "ins": [{"txid_wire": b"\x22" * 32, "vout": 3, "script": good, "seq": 0xFFFFFFFE}], "outs": [{"value": 5, "script": good}], "locktime": 0})
+                    r = ctx.call({"op": "tx_decode", "hex": tb.hex()})
+                    got = good.hex() if "ok" in r and r["ok"]["bytes"] == tb.hex() else None
+                ctx.ev()
+                if got != good.hex():
+                    ctx.viol("well-formed script rejected or altered after a long series of rejected scripts on the same thread (via=%s)" % via_k, {"input": good.hex()[:100], "resp": str(r)[:200]})
+        return
     if k == "script":
         raw = bytes.fromhex(case["hex"])
         ctx.hit(case.get("tag", "script").split(":")[0])
